@@ -386,19 +386,19 @@ impl RenderTable {
         // For now, a simple estimate based on adding up sub-parts.
         for row in itr: self.rows.iter()
             invariant //@w
-                table_ok(*self), nc == self.num_columns, sizes@.len() == nc, itr.seq().len() == self.rows@.len(), forall|i: int| 0 <= i < self.rows@.len() ==> *(#[trigger] itr.seq()[i]) == self.rows@[i], //@w
-                forall|j: int| 0 <= j < nc ==> (#[trigger] sizes@[j]).size <= itr.index@ * 0x10_0000 && sizes@[j].min_width <= 0x10_0000, //@w
+                table_ok(*self), nc == self.num_columns, sizes@.len() == nc, itr.seq().len() == self.rows@.len(), forall|i: int| 0 <= i < self.rows@.len() ==> *(#[trigger] itr.seq()[i]) == self.rows@[i], //@w @C02 #calc_size_estimate_loop_invariant
+                forall|j: int| 0 <= j < nc ==> (#[trigger] sizes@[j]).size <= itr.index@ * 0x10_0000 && sizes@[j].min_width <= 0x10_0000, //@w @C02 #calc_size_estimate_loop_invariant
         {
             let ghost ri = itr.index@; //@w
             assert(*row == self.rows@[ri]); //@w
             let mut colno = 0usize;
             for cell in itc: row.cells.iter()
                 invariant //@w
-                    table_ok(*self), nc == self.num_columns, sizes@.len() == nc, 0 <= ri < self.rows@.len(), *row == self.rows@[ri], //@w
-                    itc.seq().len() == row.cells@.len(), forall|i: int| 0 <= i < row.cells@.len() ==> *(#[trigger] itc.seq()[i]) == row.cells@[i], //@w
-                    colno == colsum(row.cells@, itc.index@), //@w
-                    forall|j: int| 0 <= j < nc ==> (#[trigger] sizes@[j]).size <= (ri + 1) * 0x10_0000 && sizes@[j].min_width <= 0x10_0000, //@w
-                    forall|j: int| colno <= j < nc ==> (#[trigger] sizes@[j]).size <= ri * 0x10_0000, //@w
+                    table_ok(*self), nc == self.num_columns, sizes@.len() == nc, 0 <= ri < self.rows@.len(), *row == self.rows@[ri], //@w @C02 #calc_size_estimate_loop_invariant
+                    itc.seq().len() == row.cells@.len(), forall|i: int| 0 <= i < row.cells@.len() ==> *(#[trigger] itc.seq()[i]) == row.cells@[i], //@w @C02 #calc_size_estimate_loop_invariant
+                    colno == colsum(row.cells@, itc.index@), //@w @C02 #calc_size_estimate_loop_invariant
+                    forall|j: int| 0 <= j < nc ==> (#[trigger] sizes@[j]).size <= (ri + 1) * 0x10_0000 && sizes@[j].min_width <= 0x10_0000, //@w @C02 #calc_size_estimate_loop_invariant
+                    forall|j: int| colno <= j < nc ==> (#[trigger] sizes@[j]).size <= ri * 0x10_0000, //@w @C02 #calc_size_estimate_loop_invariant
             {
                 let ghost ci = itc.index@; //@w
                 proof { //@w
@@ -410,9 +410,9 @@ impl RenderTable {
                 let cellsize = cell.get_size_estimate();
                 for colnum in 0..cell.colspan
                     invariant //@w
-                        nc == self.num_columns, sizes@.len() == nc, colno + cell.colspan <= nc, cell.colspan >= 1, cellsize.size <= 0x10_0000, cellsize.min_width <= 0x10_0000, nc <= 0x1000, 0 <= ri <= 0x1000, //@w
-                        forall|j: int| 0 <= j < nc ==> (#[trigger] sizes@[j]).size <= (ri + 1) * 0x10_0000 && sizes@[j].min_width <= 0x10_0000, //@w
-                        forall|j: int| colno + colnum <= j < nc ==> (#[trigger] sizes@[j]).size <= ri * 0x10_0000, //@w
+                        nc == self.num_columns, sizes@.len() == nc, colno + cell.colspan <= nc, cell.colspan >= 1, cellsize.size <= 0x10_0000, cellsize.min_width <= 0x10_0000, nc <= 0x1000, 0 <= ri <= 0x1000, //@w @C02 #calc_size_estimate_loop_invariant
+                        forall|j: int| 0 <= j < nc ==> (#[trigger] sizes@[j]).size <= (ri + 1) * 0x10_0000 && sizes@[j].min_width <= 0x10_0000, //@w @C02 #calc_size_estimate_loop_invariant
+                        forall|j: int| colno + colnum <= j < nc ==> (#[trigger] sizes@[j]).size <= ri * 0x10_0000, //@w @C02 #calc_size_estimate_loop_invariant
                 {
                     sizes[colno + colnum].size += cellsize.size / cell.colspan;
                     sizes[colno + colnum].min_width = sizes[colno + colnum].min_width.max(cellsize.min_width / cell.colspan);
@@ -514,7 +514,7 @@ impl RenderNode {
                 let mut in_whitespace = false;
                 let tt = str_trim(t);
                 for c in it: tt.chars()
-                    invariant len <= 3 * it.index@, it.index@ <= tt@.len(), tt@.len() <= t@.len(), t@.len() <= 0x4_0000_0000_0000, //@w
+                    invariant len <= 3 * it.index@, it.index@ <= tt@.len(), tt@.len() <= t@.len(), t@.len() <= 0x4_0000_0000_0000, //@w @C02 @C07 @C11 @C14 @C16 #calc_size_estimate_loop_invariant
                 {
                     let is_ws = char_is_ws(c);
                     if !is_ws {
